@@ -20,8 +20,10 @@ CFG = {
          'list (no Event hook there, its mutex would order the threads for the detector).  non-trivial = parallel run with k >= 2 that was judged '
          'and in which >= 2 goroutines executed jobs; distinct by entry+variant+k+b+items+data hash',
  'tolerances': 'differential: |a-b| <= K * terms * eps * max(1,|a|,|b|), eps = 2^-52, terms = number of accumulated contributions (observations x '
-               'components / states^2); K = 2^10 for closed forms and the numeric objective at identical variables (one reduction; the generated '
-               'data keep the condition of the closed forms below 1e3), K = 2^16 for 1-3 EM / Baum-Welch steps and the final Newton parameters '
+               'components / states^2); K = 2^10 for closed forms (one reduction; the generated '
+               'data keep the condition of the closed forms below 1e3) and for value / gradient / Hessian of the numeric estimator\'s objective at '
+               'bit-identical variables while the optimiser trajectory is identical (scaled by the largest entry of the evaluation; line-search '
+               'evaluations and everything after a divergence of the Newton trajectory are not judged), K = 2^16 for 1-3 EM / Baum-Welch steps and the final Newton parameters '
                '(each step amplifies by the Lipschitz constant of the EM map; the number of steps is fixed by epsilon = -1e300 so it cannot depend '
                'on rounding).  Observed maxima are in monitor_counters ("max:observed |diff|/(terms*eps*scale)").  One lost or doubled '
                'contribution moves an output by >= ~1e-3/n relative (every observation has a distinct value and >= 1/(4n) of the weight), i.e. '
